@@ -433,6 +433,18 @@ def _m_delta_dir(d):
     return m
 
 
+def _m_delta_near(d):
+    """a density that is not the reciprocal of an integer: 1/delta grows by 3/5, so the sample size (1/delta rounded)
+    grows by one although 1/delta truncated stays what it was"""
+    def m(ctx, o):
+        if d is None:
+            cur = o.delta if o.pdimension == 1 else o.delta[0]
+            o.delta = 1 / (1 / cur + ctx.lit(Fraction(3, 5)))
+        else:
+            setattr(o, 'delta_' + d, 1 / (1 / getattr(o, 'delta_' + d) + ctx.lit(Fraction(3, 5))))
+    return m
+
+
 def _m_delta_copy(dst, src):
     """set the density of direction dst to the current density of direction src (they differ in every shape family)"""
     def m(ctx, o):
@@ -544,6 +556,16 @@ def m_elem_ctrlpts(ctx, o):
     m_ctrlpts(ctx, list(o)[0])
 
 
+def m_elem_used(ctx, o):
+    """a contained shape is edited through its own public setter and then used on its own (sampled; tessellated if it is
+    a surface) before the container is read again"""
+    e = list(o)[0]
+    m_ctrlpts(ctx, e)
+    _ = e.evalpts
+    if e.pdimension == 2:
+        _ = (e.vertices, e.faces)
+
+
 def m_elem_knot(ctx, o):
     e = list(o)[0]
     x = ctx.lit(Fraction(3, 8))
@@ -572,6 +594,7 @@ MUTATORS = {
     'degree': m_degree, 'knotvector': m_knotvector, 'knotvector_all': m_knotvector_all, 'ctrlpts': m_ctrlpts,
     'ctrlptsw': m_ctrlptsw, 'weights': m_weights, 'set_ctrlpts': m_set_ctrlpts, 'ctrlpts2d': m_ctrlpts2d,
     'delta': m_delta, 'delta_u': _m_delta_dir('u'), 'delta_v': _m_delta_dir('v'), 'delta_w': _m_delta_dir('w'),
+    'delta~': _m_delta_near(None), 'delta_u~': _m_delta_near('u'), 'delta_v~': _m_delta_near('v'), 'delta_w~': _m_delta_near('w'),
     'delta_v=u': _m_delta_copy('v', 'u'), 'delta_u=v': _m_delta_copy('u', 'v'), 'delta_w=v': _m_delta_copy('w', 'v'),
     'sample_size': m_sample_size, 'sample_size_u': _m_sample_size_dir('u'), 'sample_size_v': _m_sample_size_dir('v'),
     'sample_size_w': _m_sample_size_dir('w'), 'evaluator': m_evaluator, 'tessellator': m_tessellator,
@@ -579,6 +602,7 @@ MUTATORS = {
     'insert_knot_sym': m_insert_knot_sym, 'remove_knot': None, 'refine': m_refine, 'reverse': m_reverse,
     'transpose': m_transpose, 'flip': m_flip, 'translate': m_translate, 'rotate': m_rotate, 'scale': m_scale,
     'add_dimension': m_add_dimension, 'add': m_add, 'add_used': m_add_used, 'elem_ctrlpts': m_elem_ctrlpts, 'elem_insert_knot': m_elem_knot,
+    'elem_ctrlpts_then_used': m_elem_used,
 }
 # after these the new control points are linear combinations / contain cos, sin atoms (see _inv)
 LAZY_BBOX = ('insert_knot', 'insert_knot_v', 'insert_knot_w', 'insert_knot_sym', 'remove_knot', 'refine', 'rotate')
@@ -592,7 +616,7 @@ def _legal(kname, tier):
     """the public mutators of a class"""
     th = tier == 'thorough'
     if kname in CONTAINERS:
-        ms = ['add', 'add_used', 'delta', 'sample_size', 'translate', 'elem_ctrlpts', 'elem_insert_knot'] + (['scale', 'rotate'] if th else [])
+        ms = ['add', 'add_used', 'delta', 'sample_size', 'translate', 'elem_ctrlpts', 'elem_insert_knot', 'elem_ctrlpts_then_used'] + (['scale', 'rotate'] if th else [])
         if kname != 'CC':
             ms += ['delta_u'] + (['sample_size_u'] if th or kname == 'SC' else []) + \
                   (['delta_v', 'sample_size_v'] if th else [])
@@ -605,12 +629,12 @@ def _legal(kname, tier):
             # quick: the 2-D curves carry the full list, the 3-D ones what depends on the dimension
             ms = ['ctrlpts', 'set_ctrlpts', 'translate', 'rotate', 'scale', 'add_dimension']
         else:
-            ms = COMMON + ['reverse', 'insert_knot_sym']
+            ms = COMMON + ['reverse', 'insert_knot_sym', 'delta~']
     elif K['geo'] == 'Surface':
         ms = COMMON + ['knotvector_all', 'ctrlpts2d', 'delta_u', 'sample_size_u', 'tessellator', 'insert_knot_v',
-                       'transpose', 'flip', 'delta_v=u', 'delta_u=v'] + (['delta_v', 'sample_size_v', 'insert_knot_sym'] if th else [])
+                       'transpose', 'flip', 'delta_v=u', 'delta_u=v', 'delta_u~', 'delta_v~'] + (['delta_v', 'sample_size_v', 'insert_knot_sym'] if th else [])
     else:
-        ms = COMMON + ['knotvector_all', 'delta_u', 'sample_size_u', 'insert_knot_w', 'delta_v=u', 'delta_w=v'] + \
+        ms = COMMON + ['knotvector_all', 'delta_u', 'sample_size_u', 'insert_knot_w', 'delta_v=u', 'delta_w=v', 'delta_w~'] + \
              (['delta_v', 'delta_w', 'sample_size_v', 'sample_size_w', 'delta_u=v'] if th else [])
     if K['rat']:
         ms = ms + RATIONAL
@@ -631,7 +655,7 @@ def _mut_instances(tier):
             if kname not in CONTAINERS and KINDS[kname]['rat']:
                 out.append(dict(kind=kname, mut=m, state='filled', post='rev'))
                 out.append(dict(kind=kname, mut=m, state='filled', post='wfirst'))
-            if kname in CONTAINERS and m in ('add', 'add_used', 'elem_ctrlpts', 'delta'):
+            if kname in CONTAINERS:
                 out.append(dict(kind=kname, mut=m, state='filled', post='rev'))       # mesh views before the sampled points
     return out
 
